@@ -475,9 +475,9 @@ theorem colons_append_ne_dot (two : Bool) (f : Cps) : (colons two ++ f == [46]) 
   cases two <;> simp [colons]
 
 theorem prep_func (out : List Tok) (two : Bool) (f : Cps) (args : List ArgTok)
-    (hs : (Simple.func two f args).ok ns = true) (ho : headP noColon out) :
-    prepAcc out (Simple.func two f args).raw = (Simple.func two f args).cooked.reverse ++ out := by
-  simp only [Simple.ok, Bool.and_eq_true, Bool.or_eq_true, Bool.not_eq_true'] at hs
+    (hs : funcOk two f args = true) (ho : headP noColon out) :
+    prepAcc out (funcRaw two f args) = (funcCooked two f args).reverse ++ out := by
+  simp only [funcOk, Bool.and_eq_true, Bool.or_eq_true, Bool.not_eq_true'] at hs
   obtain ⟨⟨⟨⟨hf, _⟩, hnot⟩, hargs⟩, _⟩ := hs
   have hopen : prepAcc out (colonsRaw two ++ [⟨.function, f⟩]) = ⟨pseudoTT two, colons two ++ f⟩ :: out := by
     cases two with
@@ -491,7 +491,7 @@ theorem prep_func (out : List Tok) (two : Bool) (f : Cps) (args : List ArgTok)
       exact prepStep_pseudo_func out true f hf (Or.inl rfl)
   have hsafe : identSafe ⟨pseudoTT two, colons two ++ f⟩ = true :=
     identSafe_of_paren _ _ (colons_append_ne_dot two f) (endsWith_append_right _ _ _ hf)
-  simp only [Simple.raw, Simple.cooked, List.append_assoc, prepAcc_append]
+  simp only [funcRaw, funcCooked, List.append_assoc, prepAcc_append]
   rw [← prepAcc_append out (colonsRaw two), hopen]
   rw [prep_args args hargs _ (headP_cons hsafe out)]
   simp only [prepAcc_cons, prepAcc_nil]
@@ -525,6 +525,7 @@ theorem prep_negArg (ns : NsMap) (x : NegArg) (hx : x.ok ns = true) (out : List 
   | pseudo two n =>
     simp only [NegArg.ok, pseudoOk, Bool.and_eq_true] at hx
     simp [NegArg.raw, NegArg.cooked, prep_pseudo out two n hx.1 (headP_mono (fun _ => opener_noColon) ho)]
+  | func two f args => exact prep_func out two f args hx (headP_mono (fun _ => opener_noColon) ho)
 
 theorem prep_not (ns : NsMap) (out : List Tok) (fv : Cps) (f1 : List Fill) (x : NegArg) (f2 : List Fill)
     (hs : (Simple.not fv f1 x f2).ok ns = true) (ho : headP noColon out) :
@@ -584,7 +585,8 @@ theorem simple_cooked_last (ns : NsMap) (s : Simple) (hs : s.ok ns = true) :
     | nil => exact absurd rfl hne
     | cons a t => cases two <;> simp [noColon, colons]
   | func two f args =>
-    exact ⟨[⟨pseudoTT two, colons two ++ f⟩] ++ args.map ArgTok.tok, ⟨.char, [41]⟩, by simp [Simple.cooked], by decide⟩
+    exact ⟨[⟨pseudoTT two, colons two ++ f⟩] ++ args.map ArgTok.tok, ⟨.char, [41]⟩,
+      by simp [Simple.cooked, funcCooked], by decide⟩
   | not fv f1 x f2 =>
     exact ⟨[⟨.negation, 58 :: fv⟩] ++ f1.map Fill.tok ++ x.cooked ++ f2.map Fill.tok, ⟨.char, [41]⟩,
       by simp [Simple.cooked], by decide⟩
